@@ -1,5 +1,5 @@
 /-
-M11: what a reply reveals is durable — locks are given back only after the flush.
+M14: what a reply reveals is durable — locks are given back only after the flush.
 
 A transaction's changes sit in the journal's in-memory log from its commit on; they are on disk
 only once the log has been written up to them (M9 / M9c).  Another transaction can see them as
